@@ -301,8 +301,8 @@ func enumerate(t *testing.T, name string, alpha []string, maxLen int) {
 
 func TestPropEnumerate(t *testing.T) {
 	registerAll()
-	enumerate(t, "tokens", append(append([]string{}, single...), composite...), ev.N(3, 5))
-	enumerate(t, "bytes", single, ev.N(4, 6))
+	enumerate(t, "tokens", append(append([]string{}, single...), composite...), ev.N(3, 4))
+	enumerate(t, "bytes", single, ev.N(4, 5))
 }
 
 func judged(c Case) *ev.Verdict {
